@@ -111,12 +111,15 @@ def find_link_image(string, offset, delimiters, matches, root=None):
 
 
 def process_emphasis(string, stack_bottom, delimiters, matches):
-    star_bottom = stack_bottom
-    underscore_bottom = stack_bottom
+    # lower bounds of the opener search ("openers_bottom" of the specification), one per closer
+    # kind: delimiter character, whether the closer can also open, and the length of its
+    # original run modulo 3 - the things the admissibility of an opener depends on.
+    bottoms = {}
     curr_pos = next_closer(stack_bottom, delimiters)
     while curr_pos is not None:
         closer = delimiters[curr_pos]
-        bottom = star_bottom if closer.type[0] == '*' else underscore_bottom
+        key = (closer.type[0], closer.open, closer.run_length % 3)
+        bottom = bottoms.get(key, stack_bottom)
         open_pos = matching_opener(curr_pos, delimiters, bottom)
         if open_pos is not None:
             opener = delimiters[open_pos]
@@ -129,24 +132,22 @@ def process_emphasis(string, stack_bottom, delimiters, matches):
             matches.append(match)
             # remove all delimiters in between
             del delimiters[open_pos + 1:curr_pos]
-            curr_pos -= curr_pos - open_pos - 1
+            curr_pos = open_pos + 1
+            # the bounds are list positions: those at or above the opener now name other
+            # delimiters, so lower them to just below the opener
+            for k, b in bottoms.items():
+                if b is not None and b >= open_pos:
+                    bottoms[k] = open_pos - 1 if open_pos > 0 else stack_bottom
             # remove appropriate number of chars from delimiters
             if not opener.remove(n, left=False):
-                delimiters.remove(opener)
+                del delimiters[open_pos]
                 curr_pos -= 1
             if not closer.remove(n, left=True):
-                delimiters.remove(closer)
-                curr_pos -= 1
-            if curr_pos < 0:
-                curr_pos = 0
+                del delimiters[curr_pos]
         else:
-            bottom = curr_pos - 1 if curr_pos > 1 else None
-            if closer.type[0] == '*':
-                star_bottom = bottom
-            else:
-                underscore_bottom = bottom
+            bottoms[key] = curr_pos - 1 if curr_pos > 0 else stack_bottom
             if not closer.open:
-                delimiters.remove(closer)
+                del delimiters[curr_pos]
             else:
                 curr_pos += 1
         curr_pos = next_closer(curr_pos, delimiters)
